@@ -404,18 +404,22 @@ def main(mod, argv):
     problems = []   # (kind, detail) that mean "no longer shown to hold"
 
     # 0. secondary tie (DESIGN 4.2): regenerate the integer kernels from the SOURCE of the tree under test
-    equiv = list(getattr(mod, "EQUIV_THEOREMS", []))
+    equiv_groups = dict(getattr(mod, "EQUIV", {}))          # group -> theorem names
+    equiv = [t for g in equiv_groups for t in equiv_groups[g]]
     translator = None
-    if equiv:
+    good_groups = []
+    if equiv_groups:
         from harness import translate
         try:
-            changed, digests = translate.regenerate(REPO, VERIF)
-            translator = {"regenerated_from": REPO, "file": "lean/MpgsModel/Generated/Kernels.lean", "rewritten": changed,
-                          "source_digests": digests}
-        except translate.Unsupported as e:
-            translator = {"error": str(e)}
-            problems.append(("translator", "a kernel of connection.py left the subset the translator accepts (its Lean definition "
-                                           "could not be regenerated, so Props/Equiv.lean no longer speaks about this source): %s" % e))
+            rep = translate.regenerate(REPO, VERIF)
+            translator = {"regenerated_from": REPO, "groups": {g: rep[g] for g in equiv_groups}}
+            for g in equiv_groups:
+                if rep[g]["error"]:
+                    problems.append(("translator", "a kernel of group %s left the subset the translator accepts (its Lean definition could "
+                                                   "not be regenerated, so Props/Equiv%s.lean no longer speaks about this source): %s"
+                                     % (g, g, rep[g]["error"])))
+                else:
+                    good_groups.append(g)
         except Exception as e:
             translator = {"error": "%s: %s" % (type(e).__name__, e)}
             problems.append(("translator", "regenerating the kernels failed: %s: %s" % (type(e).__name__, e)))
@@ -423,16 +427,18 @@ def main(mod, argv):
     # 1. build (only the modules this property needs; setup_cmd builds everything)
     targets = list(mod.LEAN_MODULES) + list(getattr(mod, "MODEL_MODULES", [])) + ["MpgsModel.Model.DriverUtil"]
     ok, log, build_s = lake_build(targets)
-    equiv_ok = False
-    if ok and equiv and translator and "error" not in translator:
-        # built on its own: when the regenerated kernels no longer equal the model, the model, its theorems and the driver still
+    equiv_ok = []
+    for g in good_groups if ok else []:
+        # built on its own: when a regenerated kernel no longer equals the model, the model, its theorems and the driver still
         # build, and the differential and the monitors go on to look for a concrete failing input
-        equiv_ok, elog, es = lake_build(["MpgsModel.Props.Equiv"])
+        gok, elog, es = lake_build(["MpgsModel.Props.Equiv" + g])
         build_s += es
-        if not equiv_ok:
+        if gok:
+            equiv_ok.append(g)
+        else:
             tail = "\n".join([l for l in elog.split("\n") if "error" in l.lower()][:8]) or elog[-800:]
-            problems.append(("equivalence", "Props/Equiv.lean no longer checks: a kernel regenerated from the source differs from "
-                                            "the model definition the theorems are about: " + tail))
+            problems.append(("equivalence", "Props/Equiv%s.lean no longer checks: a kernel regenerated from the source differs from "
+                                            "the model definition the theorems are about: %s" % (g, tail)))
     if not ok:
         ctx.lean_ok = False
         ctx.lean_problem = "lake build failed"
@@ -456,9 +462,9 @@ def main(mod, argv):
                 problems.append(("audit", "theorem %s uses axioms %s" % (name, ax)))
             else:
                 discharged += 1
-        if equiv_ok:
-            eax, _ = run_audit(prop + "_equiv", ["MpgsModel.Props.Equiv"], equiv)
-            for name in equiv:
+        for g in equiv_ok:
+            eax, _ = run_audit(prop + "_equiv" + g, ["MpgsModel.Props.Equiv" + g], equiv_groups[g])
+            for name in equiv_groups[g]:
                 ax = eax.get(name)
                 axioms[name] = ax
                 if ax is None:
